@@ -4,7 +4,7 @@ CONSTANTS
   FullDepth = 0
   CtxDepth = 0
   StmtFull = FALSE
-  Salts = {1, 2, 3, 4}
+  Salts = {1, 2}
   EmitMod = 1
   GenFam = {}
 INIT GInitStmt
